@@ -490,6 +490,13 @@ func describeValue(v ssa.Value) string {
 }
 
 func init() {
+	extend("C15", "(P15-pattern-dispatch) each of the four pattern parsers is asked for every text the ones before it refused; none is reached only under a condition on the text itself.", ruleP15PatternDispatch)
+	extend("C13", "Also (P12-now-applied, P15-pattern-dispatch): every evaluating command filters first and applies --now to what the filter selected — a range closed beforehand is no longer an open range for --entry-type; --period reaches the pattern parsers unconditionally.", ruleP12NowApplied, ruleP15PatternDispatch)
+	extend("C14", "Also (P12-now-applied): the per-tag totals are computed after --now was applied.", ruleP12NowApplied)
+	extend("C20", "Also (P02-close): under --now every open range of today's and yesterday's records is closed at the current time, each with the shift of its own record.", ruleP02Close)
+	extend("C04", "Also (P17-atdate-table): --yesterday / --tomorrow are calendar days relative to today, not 24-hour offsets of the instant.", ruleP17AtDateTable)
+	extend("C07", "Also (P08-split): a line keeps the bytes it was cut from — the parallel engine measures a block by them.", ruleP08Split)
+	extend("C08", "Also (P05-write-result): the target is replaced by the new text as a whole (truncating open), so no tail of the old contents survives a shorter write.", ruleP05WriteResult)
 	extend("C01", "(P01-headline-blanks) every look at the headline is taken after the blanks in front of the cursor were skipped, so that additional blanks between date, should-total and end of line are accepted as the specification allows. Also (P16-ampm): every hour of the 12-hour clock is read as the time it denotes.", ruleP01HeadlineBlanks, ruleP16AmPm)
 	extend("C04", "Also (P16-ampm): the time a command writes in the 12-hour notation is the literal that reads back to that time — a start written as `12:30am` for half past noon is an entry twelve hours off.", ruleP16AmPm)
 	extend("C06", "(P06-comma-ok) the value of a (value, found) function that hands back nil when nothing was found is used only where `found` holds.", ruleP06CommaOk)
@@ -1716,7 +1723,26 @@ func ruleP15WeekBound(p *Prog, r *Report) {
 		c, idx := callOf(strip(v))
 		return c != nil && idx == 0 && staticCallee(c) != nil && staticCallee(c).String() == "strconv.Atoi"
 	}
-	isLastWeek := func(v ssa.Value) bool {
+	var isLastWeek func(v ssa.Value) bool
+	isLastWeek = func(v ssa.Value) bool {
+		// handed back by a private helper together with an error: the value of its successful returns
+		if ex0, isEx := v.(*ssa.Extract); isEx {
+			if hc, isCall := ex0.Tuple.(*ssa.Call); isCall {
+				if g := rawStaticCallee(hc); g != nil && isHelper(g) {
+					n := 0
+					for _, rw := range valueRows(v, 0, map[ssa.Value]bool{}) {
+						if rw.errv != nil && !isNilConst(rw.errv) {
+							continue
+						}
+						if rw.val == nil || rw.val == v || !isLastWeek(rw.val) {
+							return false
+						}
+						n++
+					}
+					return n > 0
+				}
+			}
+		}
 		ex, ok := strip(v).(*ssa.Extract)
 		if !ok || ex.Index != 1 {
 			return false
@@ -2180,5 +2206,96 @@ func ruleP01HeadlineBlanks(p *Prog, r *Report) {
 	}
 	if n < 5 {
 		r.undecided(rule, "floor", p.pos(f.Pos()), "found %d looks at the headline, expected at least 5", n)
+	}
+}
+
+// P15-pattern-dispatch — "every period pattern denotes exactly that period": whether a text is
+// a year, month, quarter or week pattern is decided by the four pattern parsers themselves, each
+// of which is asked for every text that the ones before it refused. No parser is reached only
+// under a condition on the text (its length, a character at some position): such a pre-selection
+// has to agree with four regular expressions in every detail, and where it does not
+// (`2022-W1` is seven characters long) a valid pattern is refused.
+func ruleP15PatternDispatch(p *Prog, r *Report) {
+	const rule = "P15-pattern-dispatch"
+	f := p.fn("klog/service/period", "NewPeriodFromPatternString")
+	if !r.anchorFn(rule, f, "period.NewPeriodFromPatternString") {
+		return
+	}
+	pat := f.Params[0]
+	var dependsOnText func(v ssa.Value, depth int) bool
+	dependsOnText = func(v ssa.Value, depth int) bool {
+		if v == nil || depth > 6 {
+			return false
+		}
+		if strip(v) == ssa.Value(pat) || deref(v) == ssa.Value(pat) {
+			return true
+		}
+		switch x := v.(type) {
+		case *ssa.BinOp:
+			return dependsOnText(x.X, depth+1) || dependsOnText(x.Y, depth+1)
+		case *ssa.UnOp:
+			return dependsOnText(x.X, depth+1)
+		case *ssa.Lookup:
+			return dependsOnText(x.X, depth+1)
+		case *ssa.Slice:
+			return dependsOnText(x.X, depth+1)
+		case *ssa.Convert:
+			return dependsOnText(x.X, depth+1)
+		case *ssa.Extract:
+			return dependsOnText(x.Tuple, depth+1)
+		case *ssa.Call:
+			// the outcome of one of the parsers is not a condition "on the text"
+			if g := rawStaticCallee(x); g != nil && p.inModFn(g) && strings.HasSuffix(fnBase(g), "FromString") {
+				return false
+			}
+			for _, a := range x.Call.Args {
+				if dependsOnText(a, depth+1) {
+					return true
+				}
+			}
+		case *ssa.Phi:
+			for _, e := range x.Edges {
+				if dependsOnText(e, depth+1) {
+					return true
+				}
+			}
+		}
+		return false
+	}
+	want := map[string]bool{"NewYearFromString": false, "NewMonthFromString": false, "NewQuarterFromString": false, "NewWeekFromString": false}
+	for _, g := range withAnons(f) {
+		eachInstr(g, func(in ssa.Instruction) {
+			c, ok := in.(ssa.CallInstruction)
+			if !ok {
+				return
+			}
+			callee := rawStaticCallee(c)
+			if callee == nil {
+				return
+			}
+			name := fnBase(callee)
+			if _, isParser := want[name]; !isParser {
+				return
+			}
+			want[name] = true
+			bad := ""
+			gs := guardsOf(c.Block())
+			for h := c.Parent(); h != nil && h != f; h = h.Parent() {
+				if site := soleDirectCall(h); site != nil {
+					gs = append(gs, guardsOf(site.Block())...)
+				}
+			}
+			for _, gd := range gs {
+				if dependsOnText(gd.Cond, 0) {
+					bad = gd.Cond.String()
+				}
+			}
+			r.check(bad == "", rule, "parser:"+name, p.instrPos(c), name+" is asked whatever the text looks like", name+" is asked only under a condition on the pattern text ("+bad+"): a pattern that the parser accepts but the condition does not let through is refused")
+		})
+	}
+	for _, name := range sortedKeys(want) {
+		if !want[name] {
+			r.bad(rule, "parser:"+name, p.pos(f.Pos()), "%s is never asked: no pattern of that kind is recognised", name)
+		}
 	}
 }
